@@ -185,11 +185,16 @@ def build_block(built, program, b):
             kw["mode"] = b["mode"]
         if b.get("alignment") is not None:
             kw["alignment"] = b["alignment"]
+        if not cs:
+            # as a user would write it: the default argument (a mutable default shared by every call)
+            return Merge([built.blocks[x] for x in b["blocks"]], **kw)
         return Merge([built.blocks[x] for x in b["blocks"]], cs, **kw)
     if k == "Nest":
         kw = {}
         if b.get("alignment") is not None:
             kw["alignment"] = b["alignment"]
+        if not cs:
+            return Nest(built.blocks[b["outer"]], built.blocks[b["inner"]], **kw)
         return Nest(built.blocks[b["outer"]], built.blocks[b["inner"]], cs, **kw)
     raise ValueError(k)
 
